@@ -449,6 +449,28 @@ impl<'a> ChainVisitor for Exec<'a> {
                 out.probe("probe.value_contains_sigma");
             }
         }
+        // A Display sink that fails after k bytes (fmt::Write error at an arbitrary instant): the
+        // error is propagated, nothing panics, and what was written is a prefix of the full text.
+        if let Ok(full) = display_of(&v, &mut out) {
+            let k = (Fnv::of_str(&vrepr) % (full.len() as u64 + 2)) as usize;
+            let mut sink = SimSink::new(Some(k));
+            match catch_unwind(AssertUnwindSafe(|| v.display_into(&mut sink))) {
+                Err(pn) => out.violations.push(("display_does_not_panic_on_failing_sink".to_string(), format!("Display panicked when the sink failed after {k} bytes: {}", panic_message(&pn)))),
+                Ok(r) => {
+                    if sink.failed {
+                        out.fire("fault.fmt_sink_error", 1);
+                    }
+                    let prefix_ok = full.starts_with(&sink.out);
+                    let outcome_ok = if full.len() > k { r.is_err() } else { r.is_ok() && sink.out == full };
+                    if !prefix_ok || !outcome_ok {
+                        out.violations.push((
+                            "display_propagates_sink_error".to_string(),
+                            format!("Display of {vrepr} into a sink failing after {k} bytes returned {r:?} having written {:?} (full text {:?})", sink.out, full),
+                        ));
+                    }
+                }
+            }
+        }
         // I0: the canonical re-entry of the statement itself
         let check = |w: &T, what: &str, out: &mut Out| {
             let wr = w.repr();
@@ -736,6 +758,7 @@ fn run_check(cfg: &Config) -> i32 {
         "fault.short_read",
         "fault.eintr",
         "fault.write_eintr",
+        "fault.fmt_sink_error",
     ];
     let mut stuck: Vec<String> = must.iter().copied().filter(|k| stats.get(k) == 0).map(|s| s.to_string()).collect();
     for src in ["try_new", "try_from_inner", "from_str", "try_from_str", "deserialize", "arbitrary", "default"] {
